@@ -77,6 +77,20 @@ CHECKS = {
         note="Trusted: Lean kernel; axioms propext/Quot.sound/Classical.choice; Spec/AuthSpec.lean; model + scripted-peer harness; case-sensitive "
              "EHLO keyword matching is accepted (fails safe).",
         technique="Lean 4 proof (induction over the challenge counter, base64 inverse) + model-vs-code correspondence over loopback"),
+    "C06": dict(
+        category="proof",
+        text="Lean theorems about the TLS decision logic for every clear-side and TLS-side server script and either handshake outcome: "
+             "required_no_clear_leak (only EHLO/STARTTLS/QUIT ever in clear), wrapper_nothing_in_clear, required_fail_closed, "
+             "failed_handshake_no_session, caps_from_tls_only (the TLS session starts from an empty read buffer: no STARTTLS response "
+             "injection), opportunistic_iff_offered, none_never_upgrades, switch_table. The handshake itself (certificate / host-name "
+             "verification by native-tls/OpenSSL) is an input: partial. Correspondence: the real SmtpTransport and tokio "
+             "AsyncSmtpTransport against a scripted peer that switches to TLS with fixture certificates (trusted/right name, wrong name, "
+             "self-signed, expired) over the full grid of modes x switches x server kinds; clear and in-TLS octets recorded separately; "
+             "the real handshake outcome compared with the expected table.",
+        design_ref="DESIGN.md 5 C06",
+        note="Trusted: Lean kernel; axioms propext/Quot.sound/Classical.choice; native-tls/OpenSSL handshake and X.509 verification (input of the "
+             "model, exercised with real certificates: partial); model + scripted TLS peer harness; fixtures/ (committed, regenerable with tools/fixtures.sh).",
+        technique="Lean 4 proof of the TLS decision logic (handshake as input) + model-vs-code correspondence with real TLS handshakes"),
 }
 
 NOT_APPLICABLE = {
